@@ -26,6 +26,9 @@ pub struct Held {
     pub values: Vec<(String, String)>, // name as in the schema, raw
     pub legacy: Credential,
     pub w3c: W3CCredential,
+    /// the same credential as a holder may store it: a data-integrity proof of another
+    /// cryptosuite listed BEFORE the AnonCreds signature proof
+    pub w3c_multi: W3CCredential,
     pub rev_idx: Option<u32>,
 }
 
@@ -104,7 +107,17 @@ impl World {
             .map(|(cd, h, vals, idx)| {
                 let legacy = issue(&cds, *cd, &holders[*h], vals, idx.map(|i| (&reg, &l0, i)));
                 let w3c = w3c::credential_conversion::credential_to_w3c(&legacy, &cds[*cd].issuer_id.as_str().try_into().unwrap(), None).unwrap();
-                Held { cd: *cd, holder: *h, values: vals.iter().map(|(k, v)| (k.to_string(), v.to_string())).collect(), legacy, w3c, rev_idx: *idx }
+                let mut doc = serde_json::to_value(&w3c).unwrap();
+                let own = match doc["proof"].take() {
+                    Value::Array(mut a) => a.remove(0),
+                    x => x,
+                };
+                let other = json!({"type": "DataIntegrityProof", "cryptosuite": "eddsa-rdfc-2022", "created": "2024-01-01T00:00:00Z",
+                    "verificationMethod": "did:web:issuer.example#key-1", "proofPurpose": "assertionMethod",
+                    "proofValue": "z2YwC8z3ap7yx1nZYCg4L3j3ApHsF8kgPdSb5xoS1VR7vPG3F561B52hYnQF9iseabecm3ijx4K1FBTQsCZahKZme"});
+                doc["proof"] = json!([other, own]);
+                let w3c_multi: W3CCredential = serde_json::from_value(doc).unwrap();
+                Held { cd: *cd, holder: *h, values: vals.iter().map(|(k, v)| (k.to_string(), v.to_string())).collect(), legacy, w3c, w3c_multi, rev_idx: *idx }
             })
             .collect();
         // history of the registry: t=100 all valid, t=200 index 2 revoked, t=300 index 1 revoked too
@@ -306,7 +319,7 @@ pub fn cvn(s: &str) -> String {
     s.replace(' ', "").to_lowercase()
 }
 
-fn source_sexp(w: &World, p: &Prov) -> String {
+pub fn source_sexp(w: &World, p: &Prov) -> String {
     let c = &w.creds[p.cred];
     let attrs: Vec<String> = w.cds[c.cd].schema.attr_names.0.iter().map(|a| cvn(a)).collect();
     let vals: Vec<(String, String)> = c.legacy.values.0.iter().map(|(k, v)| (cvn(k), v.encoded.clone())).collect();
@@ -485,6 +498,9 @@ pub struct Pick {
 }
 
 pub fn make_legacy(w: &World, req: &PresentationRequest, picks: &[Pick], self_attested: &[(String, String)], holder: usize) -> Option<(Presentation, Vec<Prov>, AggProv)> {
+    try_legacy(w, req, picks, self_attested, holder).ok()
+}
+pub fn try_legacy(w: &World, req: &PresentationRequest, picks: &[Pick], self_attested: &[(String, String)], holder: usize) -> Result<(Presentation, Vec<Prov>, AggProv), &'static str> {
     let mut pc: PresentCredentials<Credential> = PresentCredentials::default();
     let mut provs = vec![];
     for p in picks.iter() {
@@ -513,25 +529,31 @@ pub fn make_legacy(w: &World, req: &PresentationRequest, picks: &[Pick], self_at
         Ok(Ok(p)) => {
             let nonce = serde_json::to_value(&req.value().nonce).unwrap().as_str().unwrap().to_string();
             let agg = AggProv { nonce, count: provs.len(), altered: false, common: true };
-            Some((p, provs, agg))
+            Ok((p, provs, agg))
         }
         Ok(Err(e)) => {
             if std::env::var("AVH_DEBUG").is_ok() {
                 eprintln!("make_legacy failed: {}", e);
             }
-            None
+            Err("err")
         }
-        Err(_) => None,
+        Err(_) => Err("panic"),
     }
 }
 
 pub fn make_w3c(w: &World, req: &PresentationRequest, picks: &[Pick], holder: usize) -> Option<(W3CPresentation, Vec<Prov>, AggProv)> {
+    try_w3c(w, req, picks, holder).ok()
+}
+pub fn try_w3c(w: &World, req: &PresentationRequest, picks: &[Pick], holder: usize) -> Result<(W3CPresentation, Vec<Prov>, AggProv), &'static str> {
+    try_w3c_opt(w, req, picks, holder, false)
+}
+pub fn try_w3c_opt(w: &World, req: &PresentationRequest, picks: &[Pick], holder: usize, multi: bool) -> Result<(W3CPresentation, Vec<Prov>, AggProv), &'static str> {
     let mut pc: PresentCredentials<W3CCredential> = PresentCredentials::default();
     let mut provs = vec![];
     for p in picks.iter() {
         let st = p.list.and_then(|li| w.states.get(&(p.cred, li)));
         let ts = st.map(|_| w.lists[p.list.unwrap()].ts);
-        let mut ac = pc.add_credential(&w.creds[p.cred].w3c, ts, st);
+        let mut ac = pc.add_credential(if multi { &w.creds[p.cred].w3c_multi } else { &w.creds[p.cred].w3c }, ts, st);
         for (r, rev) in &p.attrs {
             ac.add_requested_attribute(r.clone(), *rev);
         }
@@ -551,9 +573,15 @@ pub fn make_w3c(w: &World, req: &PresentationRequest, picks: &[Pick], holder: us
         Ok(Ok(p)) => {
             let nonce = serde_json::to_value(&req.value().nonce).unwrap().as_str().unwrap().to_string();
             let agg = AggProv { nonce, count: provs.len(), altered: false, common: true };
-            Some((p, provs, agg))
+            Ok((p, provs, agg))
         }
-        _ => None,
+        Ok(Err(e)) => {
+            if std::env::var("AVH_DEBUG").is_ok() {
+                eprintln!("make_w3c failed: {}", e);
+            }
+            Err("err")
+        }
+        Err(_) => Err("panic"),
     }
 }
 
